@@ -509,7 +509,11 @@ def run_check(prop, tier, seed):
             known_hits.append(dict(key=cls, count=len(reps), what=kf.get("what", "")))
             print(f"KNOWN-FINDING: property={prop} {cls} — {kf.get('what','')} ({len(reps)} runs)")
             continue
-        small, reruns = shrink(variant, plan, cls, is_leak_prop)
+        # shrinking is bounded per check: many distinct classes usually share one root cause
+        if len(violations) < 6:
+            small, reruns = shrink(variant, plan, cls, is_leak_prop)
+        else:
+            small, reruns = plan, 0
         rs = replay_once(variant, small, leak=is_leak_prop)
         if (rs["leak"] if is_leak_prop else rs["cls"]) != cls:
             small, rs = plan, r1
